@@ -189,10 +189,10 @@ type case = {
   mutable id : string; mutable kind : string; mutable src : string;
   mutable sigs : signal list; mutable layout : int list; mutable table : outval list list;
   mutable echo : bool; mutable wdefault : bool; mutable faults : (int * fault) list;
-  mutable rng : string list; mutable max : int; mutable fuel : int;
+  mutable rng : string list; mutable max : int; mutable fuel : int; mutable cont : bool;
 }
 let new_case () = { id = ""; kind = "run"; src = ""; sigs = []; layout = []; table = []; echo = false;
-                    wdefault = false; faults = []; rng = []; max = 1000; fuel = 20000 }
+                    wdefault = false; faults = []; rng = []; max = 1000; fuel = 20000; cont = false }
 
 let parse_inval s = if s = "Z" then IZ else IVal (z_of_zt (BigZ.of_string s))
 let parse_outval s = if s = "Z" then OZ else if s = "X" then OX else OVal (z_of_zt (BigZ.of_string s))
@@ -233,6 +233,7 @@ let read_cases (ic : in_channel) : case list =
        | "rng" :: rest -> !cur.rng <- rest
        | "max" :: v :: _ -> !cur.max <- int_of_string v
        | "fuel" :: v :: _ -> !cur.fuel <- int_of_string v
+       | "cont" :: v :: _ -> !cur.cont <- (v = "1")
        | "end" :: _ -> cases := !cur :: !cases
        | _ -> ()
      done
@@ -302,7 +303,9 @@ let run_iter (c : case) (tc : testcase) (d : Model.n driver) (wdefault : bool) (
            | ItOOF -> pr "ITEM oof\n"; pr "END oof\n"
            | ItErr (e, st') ->
                if not static then print_calls st.i_log st'.i_log;
-               pr "ITEM err %s\n" (ierr_s e); pr "END err\n"
+               pr "ITEM err %s\n" (ierr_s e);
+               let is_expr = (match e with IE_Runtime (RT_Expr _) -> true | _ -> false) in
+               if c.cont && not is_expr then loop st' (k + 1) else pr "END err\n"
            | ItRow (row, st') ->
                if not static then print_calls st.i_log st'.i_log;
                pr "ROW %s | %s | %s | failing=%s\n" (ns row.dr_line) (inputs_s row.dr_inputs)
